@@ -8,7 +8,8 @@ CONSTANTS
   RecoveryModes <- BothModes
   Ops <- AllOps
   Aging = TRUE
+  TwoStep = FALSE
 VIEW view
-INVARIANTS TypeOK OneRunner RunnerRegistered NoPanic AtMostOnce StartOnce MutexInv WaitTruth StaleRejected
+INVARIANTS TypeOK OneRunner RunnerRegistered NoPanic AtMostOnce StartOnce MutexInv WaitTruth StaleRejected IndexLags
 PROPERTIES StartedFromNS TerminalStable OnlyRunningResumed
 CHECK_DEADLOCK FALSE
